@@ -2,7 +2,7 @@
 """Runs checks against one candidate change in isolation (scratch worktree of /repo under /var/tmp, own build and
 evidence directories), printing the exit code and the violation signatures of each.  /repo and /verif/build are untouched.
 
-usage: tryseed.py <patch.diff> <tier> <Cxx> [<Cxx> ...]
+usage: tryseed.py <patch.diff | -> <tier> <Cxx> [<Cxx> ...]        ("-": no change, i.e. a baseline run in isolation)
 """
 import os, re, shutil, subprocess, sys, tempfile
 
@@ -15,14 +15,14 @@ def sh(cmd, env=None, cwd=None, timeout=7200):
 
 
 def main():
-    patch, tier, checks = os.path.abspath(sys.argv[1]), sys.argv[2], sys.argv[3:]
+    patch, tier, checks = (os.path.abspath(sys.argv[1]) if sys.argv[1] != "-" else None), sys.argv[2], sys.argv[3:]
     base = tempfile.mkdtemp(prefix="vp-try-", dir="/var/tmp")
     repo = os.path.join(base, "repo")
     try:
         rc, out = sh("git -C /repo worktree add --detach %s HEAD" % repo)
         if rc:
             print("worktree failed", out); return 2
-        rc, out = sh("git apply %s" % patch, cwd=repo)
+        rc, out = sh("git apply %s" % patch, cwd=repo) if patch else (0, "")
         if rc:
             print("patch does not apply:", out); return 2
         env = dict(os.environ, VERIF_REPO=repo, VERIF_BUILD=os.path.join(base, "build"), VERIF_EVID=os.path.join(base, "evidence"), VERIF_REPLAYS=os.path.join(base, "replays"))
